@@ -461,7 +461,30 @@ class PauliSum:
         if len(self) != len(other):
             return False
 
-        return set(self.terms) == set(other.terms)
+        # Coefficients are compared with the same tolerance as PauliTerm.__eq__ (hashes
+        # bucket them, so comparing sets of terms fails for values next to a bucket edge).
+        self_coefficients = self._coefficients_by_operations()
+        other_coefficients = other._coefficients_by_operations()
+        if self_coefficients.keys() != other_coefficients.keys():
+            return False
+
+        return all(
+            len(coefficients) == len(other_coefficients[operations])
+            and np.allclose(coefficients, other_coefficients[operations])
+            for operations, coefficients in self_coefficients.items()
+        )
+
+    def _coefficients_by_operations(self) -> Dict[FrozenSet[Tuple[int, str]], list]:
+        coefficients: Dict[FrozenSet[Tuple[int, str]], list] = {}
+        for term in self.terms:
+            operations = (
+                frozenset() if np.allclose(term.coefficient, 0) else term.operations
+            )
+            coefficients.setdefault(operations, []).append(complex(term.coefficient))
+        return {
+            operations: sorted(values, key=lambda c: (c.real, c.imag))
+            for operations, values in coefficients.items()
+        }
 
     def __add__(self, other: Union[PauliRepresentation, complex]) -> "PauliSum":
         _validate_type(other)
